@@ -524,7 +524,25 @@ impl Task for ExternalEquivalenceTask {
             }
         }
 
-        let theory_translate = |program: asp::Program| {
+        // The predicates occurring on either side (an output predicate that occurs on one side
+        // only needs an (empty) completed definition on the other side).
+        let specification_predicates: IndexSet<fol::Predicate> = match self.specification {
+            Either::Left(ref program) => program
+                .predicates()
+                .into_iter()
+                .map(fol::Predicate::from)
+                .collect(),
+            Either::Right(ref specification) => specification.predicates(),
+        };
+        let program_predicates: IndexSet<fol::Predicate> = self
+            .program
+            .predicates()
+            .into_iter()
+            .map(fol::Predicate::from)
+            .collect();
+
+        let theory_translate = |program: asp::Program,
+                                occurring_elsewhere: &IndexSet<fol::Predicate>| {
             // TODO: allow more formula representations beyond tau-star
             let tau_star = program.tau_star().replace_placeholders(&placeholders);
             let occurring_predicates = tau_star.predicates();
@@ -534,9 +552,12 @@ impl Task for ExternalEquivalenceTask {
                 .expect("tau_star did not create a completable theory");
 
             // The completion is taken over all output predicates: an output predicate that
-            // does not occur in the program is empty in each of its stable models.
+            // does not occur in the program is empty in each of its stable models. (This only
+            // matters for predicates that occur on the other side.)
             for predicate in self.user_guide.output_predicates() {
-                if !occurring_predicates.contains(&predicate) {
+                if !occurring_predicates.contains(&predicate)
+                    && occurring_elsewhere.contains(&predicate)
+                {
                     theory.formulas.push(
                         fol::Formula::BinaryFormula {
                             connective: fol::BinaryConnective::Equivalence,
@@ -589,11 +610,13 @@ impl Task for ExternalEquivalenceTask {
         };
 
         let left = match self.specification {
-            Either::Left(program) => control_translate(theory_translate(program)),
+            Either::Left(program) => {
+                control_translate(theory_translate(program, &program_predicates))
+            }
             Either::Right(specification) => specification.replace_placeholders(&placeholders),
         };
 
-        let right = control_translate(theory_translate(self.program));
+        let right = control_translate(theory_translate(self.program, &specification_predicates));
 
         // TODO: Warn when a conflict between private predicates is encountered
         // A private predicate of the program that clashes with a private predicate of the
